@@ -153,6 +153,21 @@ func ChannelCreate(nameBytes []byte, port uint16, declaredLen int) []byte {
 	return Packet(PktChannelCreate, b)
 }
 
+// ChannelCreateAlts builds a channel create with one resource name and up to three alternate
+// resource names ([MS-TSGU] 2.2.10.4: numAltResources, pAltResources).
+func ChannelCreateAlts(host string, alts []string, port uint16) []byte {
+	var b []byte
+	b = append(b, 1, byte(len(alts)))
+	b = binary.LittleEndian.AppendUint16(b, port)
+	b = binary.LittleEndian.AppendUint16(b, 3)
+	for _, n := range append([]string{host}, alts...) {
+		u := UTF16LE(n + "\x00")
+		b = binary.LittleEndian.AppendUint16(b, uint16(len(u)))
+		b = append(b, u...)
+	}
+	return Packet(PktChannelCreate, b)
+}
+
 func ChannelCreateHost(host string, port uint16) []byte {
 	return ChannelCreate(UTF16LE(host+"\x00"), port, -1)
 }
